@@ -61,3 +61,34 @@ def cmp_scalar(obs, exp, tol=TOL, name=''):
     if abs(o - exp) > tol * max(1.0, abs(exp)):
         return '%s observed %r expected %r' % (name, obs, exp)
     return None
+
+
+def entry_variants(values, cplx, idx=0, full=False):
+    """Entry paths for the same exact samples (the exact universe is integer valued, so every
+    dtype represents it exactly): -> list of (name, object, tolerance).
+
+    complex data : complex128 ndarray, list of python complex, complex64 ndarray
+    real data    : float64 ndarray, list of python ints, int64 / int32 / int16 ndarray, float32 ndarray,
+                   complex128 ndarray with zero imaginary part is NOT included here (it is a different
+                   datatype for the estimator classes; kernels that accept it list it themselves)
+    Unless `full`, the default path plus ONE other path chosen by `idx` is returned, so that over the
+    states of a model every path is exercised many times at a fraction of the cost."""
+    import numpy as np
+    if cplx:
+        base = np.array(values, dtype=complex)
+        allv = [('complex128', base, TOL),
+                ('list-complex', [complex(v) for v in base], TOL),
+                ('complex64', base.astype(np.complex64), 2e-5)]
+    else:
+        base = np.array(values, dtype=float)
+        ints = np.all(base == np.round(base))
+        allv = [('float64', base, TOL)]
+        if ints:
+            allv += [('list-int', [int(v) for v in base], TOL),
+                     ('int64', base.astype(np.int64), TOL),
+                     ('int32', base.astype(np.int32), TOL),
+                     ('int16', base.astype(np.int16), TOL)]
+        allv += [('float32', base.astype(np.float32), 2e-5)]
+    if full or len(allv) <= 2:
+        return allv
+    return [allv[0], allv[1 + idx % (len(allv) - 1)]]
